@@ -28,7 +28,7 @@ Cat == << <<>>, <<97>>, <<97, 0>>, <<97, 98>>, <<98>>, <<195, 169>> >>
 CatIdx == 1..NCat
 \* number of documents per term, and the frequency in each
 Cnt == <<1, 2, 3, 1, 1, 2>>
-Frq == <<1, 1, 1, 1, 2, 1>>
+Frq == <<1, 1, 1, 0, 2, 1>>      \* term 4 has frequency 0 (no freq/norm stored): one document, yet not single-hit
 \* range bounds: the terms plus keys between, below and above them
 Bounds == RangeOf(Cat) \cup { <<48>>, <<97, 97>>, <<99>>, <<122, 122>> }
 NoBound == <<255, 255, 255>>       \* stands for "bound absent" (nil)
@@ -51,6 +51,8 @@ Selected == SortInts({ i \in TS : i \in A /\ InRange(Cat[i]) })
 
 \* declarative answer
 Entries == [k \in 1..Len(Selected) |-> [t |-> Cat[Selected[k]], n |-> Cnt[Selected[k]]]]
+\* ... and for the merge of two independently built segments with this dictionary (no deletions)
+Entries2 == [k \in 1..Len(Selected) |-> [t |-> Cat[Selected[k]], n |-> 2 * Cnt[Selected[k]]]]
 
 \* operational counts on a merged segment: the scratch list's single-hit bits persist unless cleared
 ImplCounts ==
@@ -83,7 +85,7 @@ EmitQuery ==
      PrintT(<<"WALK", ToJson([ts |-> SortInts(TS), acc |-> SortInts(A),
                                lo |-> IF lo = NoBound THEN [nil |-> TRUE, k |-> <<>>] ELSE [nil |-> FALSE, k |-> lo],
                                hi |-> IF hi = NoBound THEN [nil |-> TRUE, k |-> <<>>] ELSE [nil |-> FALSE, k |-> hi],
-                               ents |-> Entries])>>)
+                               ents |-> Entries, ents2 |-> Entries2])>>)
 
 EnumExact == phase = "query" => ImplCounts = [k \in 1..Len(Entries) |-> Entries[k].n]
 
